@@ -202,7 +202,7 @@ func checkAuthorize(r *Run, p *Prog) {
 				if ex.Return == nil || !vis0[ex.P] || len(ex.Return.Results) == 0 {
 					continue
 				}
-				if isNilIdent(fn, ex.Return.Results[len(ex.Return.Results)-1]) {
+				if mayReturnNilError(fn, ex.Return) {
 					early = q0.PathTo(ex.P)
 				}
 			}
